@@ -259,7 +259,7 @@ def render_package(spec, pkgname, modpath, other_pkg=None):
         else:
             val = '%s%s{%s}' % ('&' if n.ptr else '', t, ', '.join('F%d: %s{ID: id + %d}' % (j, nm.comp_tname(k, j), j) for j in range(n.ncomp)))
         if n.has_err:
-            w('\tif err != nil {\n\t\treturn %s%s, err\n\t}' % (zero, ', nil' if n.has_cleanup else ''))
+            w('\tif err != nil {\n\t\treturn %s%s, err\n\t}' % (zero, ', vrt.FailedCleanupFn(%d)' % k if n.has_cleanup else ''))
         else:
             w('\t_ = err')
         r = [val]
@@ -698,4 +698,32 @@ def family_reject():
             'wire.go': '//go:build wireinject\n// +build wireinject\n\npackage {PKG}\n\nimport "github.com/google/wire"\n\nvar SetA = wire.NewSet(NewA)\n\nfunc Inject(%s) %s {\n\tpanic(wire.Build(%s))\n}\n' % (args, rty, items),
         }
         specs.append(RawSpec(files, 'must be rejected: ' + lab, expect='reject', reject_props=props, family='reject'))
+    return specs
+
+
+def family_packages():
+    """F7: providers and sets spread over several packages, including packages with the same name under different
+    import paths that export equally named providers, and two injectors in one package (shared object cache)."""
+    specs = []
+    def cfg(node):
+        return ('package config\n\nimport (\n\t"example.com/corpus/vrt"\n\t"example.com/corpus/{PKG}/settings"\n\t"github.com/google/wire"\n)\n\n'
+                'func New() settings.Settings {\n\tid, _ := vrt.Call(%d, false)\n\treturn settings.Settings{ID: id}\n}\n\nvar Set = wire.NewSet(New)\n' % node)
+    for use_set in (False, True):
+        item1 = 'prodcfg.Set' if use_set else 'prodcfg.New'
+        item2 = 'stagecfg.Set' if use_set else 'stagecfg.New'
+        files = {
+            'providers.go': ('package {PKG}\n\nimport (\n\t"example.com/corpus/vrt"\n\t"example.com/corpus/{PKG}/settings"\n)\n\ntype App struct{ ID int }\n\n'
+                             'func NewApp(s settings.Settings) App {\n\tid, _ := vrt.Call(0, false, s.ID)\n\treturn App{ID: id}\n}\n'),
+            'wire.go': ('//go:build wireinject\n// +build wireinject\n\npackage {PKG}\n\nimport (\n\t"github.com/google/wire"\n\tprodcfg "example.com/corpus/{PKG}/prod/config"\n\tstagecfg "example.com/corpus/{PKG}/staging/config"\n)\n\n'
+                        'func InjectProd() App {\n\tpanic(wire.Build(%s, NewApp))\n}\n\nfunc InjectStaging() App {\n\tpanic(wire.Build(%s, NewApp))\n}\n' % (item1, item2)),
+            'zz_driver.go': ('//go:build !wireinject\n// +build !wireinject\n\npackage {PKG}\n\nimport "example.com/corpus/vrt"\n\nfunc VDrive() {\n'
+                             '\tfor which := 1; which <= 2; which++ {\n\t\tspec := &vrt.Spec{}\n\t\tspec.Nodes = []vrt.Node{\n'
+                             '\t\t\t{Name: "NewApp", Kind: vrt.KFunc, Params: []vrt.Ref{{Node: which}}},\n\t\t\t{Name: "prod/config.New", Kind: vrt.KFunc},\n\t\t\t{Name: "staging/config.New", Kind: vrt.KFunc},\n\t\t}\n'
+                             '\t\tspec.Result = []vrt.Ref{{Node: 0}}\n\t\tspec.ArgIDs = make([][]int, 3)\n\t\tvrt.Reset()\n\t\tvar res App\n\t\tif which == 1 {\n\t\t\tres = InjectProd()\n\t\t} else {\n\t\t\tres = InjectStaging()\n\t\t}\n'
+                             '\t\tvrt.Check(spec, vrt.Outcome{Result: []int{res.ID}, CleanupNil: true})\n\t}\n}\n'),
+        }
+        extra = {'settings': {'settings.go': 'package settings\n\ntype Settings struct{ ID int }\n'},
+                 'prod/config': {'config.go': cfg(1)}, 'staging/config': {'config.go': cfg(2)}}
+        specs.append(RawSpec(files, 'two injectors using equally named providers from two packages both named config (via %s)' % ('provider sets' if use_set else 'functions'),
+                             family='packages', extra_pkgs=extra))
     return specs
